@@ -86,6 +86,9 @@ let judge _name ins outs =
         let rs = List.map observe raws in
         let fin = match List.find_opt (fun t -> has_prefix t "END:") outs with
           | Some t -> String.sub t 4 (String.length t - 4) | None -> "missing" in
+        (* "lead" scripts end with bytes that are no part of the script: only the responses are judged *)
+        let lead = String.length mode >= 4 && String.sub mode 0 4 = "lead" in
+        let fin = if lead && fin = "lead" then (if snd (spec_view es) then "closed" else "open") else fin in
         let obs = (rs, fin = "closed" || fin = "tunnel") in
         (* the answer read through an established tunnel must be the origin's, untouched *)
         let tunnel_bad =
@@ -150,6 +153,13 @@ let judge _name ins outs =
           VPropfail (clause, detail)
         end
       end
+  | "CST" :: "g" :: steps when List.mem "tlsh2" steps
+                              && List.exists (fun t -> has_prefix t "cst:" &&
+                                   (let seen = String.split_on_char ',' (String.sub t 4 (String.length t - 4)) in
+                                    let rec after = function [] -> [] | x :: r -> if x = "tls-okh2" then r else after r in
+                                    List.exists (fun x -> x = "bytes" || has_prefix x "resp") (after seen))) outs ->
+      (* a client that negotiated h2 got application bytes that are not HTTP/2 frames *)
+      VPropfail ("h2_tunnel_gets_only_h2", String.concat " " outs)
   | "MAL" :: _ | "CST" :: _ ->
       if List.exists (fun t -> has_prefix t "DEAD") outs then
         VPropfail ("proxy_process_terminated", String.concat " " outs)
